@@ -280,6 +280,109 @@ theorem rewrite_makeEdit_underflow_panics (old : Bytes) (e : REdit) (es : List R
   have : ¬ offset ≤ e.position := by omega
   simp [makeEdit, makeEditGo, subUsize, this, bind, Except.bind]
 
+/-! ### The repaired rewriter splice (`makeEditFixed` / `joinByFixed` / `rewriteComputeFixed`)
+
+The theorems above are regression facts about the released code (`position - offset` and the two
+slices panic for an edit that starts before, or reaches beyond, the captured text).  The repaired
+code clamps the edit to the slice; the theorems below are about its transcription. -/
+
+/-- **the repaired `make_edit` cannot panic**: for ALL texts, edit lists and offsets (edits before
+the capture, beyond its end, overlapping, unsorted) both slices are in range -/
+theorem rewrite_makeEditFixed_total (old : Bytes) (edits : List REdit) (offset : Nat) :
+    ∃ r, makeEditFixed old edits offset = .ok r :=
+  ⟨_, makeEditFixedGo_eq_segments old offset edits 0 (Nat.zero_le _)⟩
+
+/-- **what the repaired `make_edit` computes, without hypotheses**: the specification's splice of
+the edits clamped to the captured slice (`REdit.relClamp`: start and stop cut to `0 .. |old|`)
+that the greedy filter keeps; in particular every byte outside the clamped kept ranges is
+preserved (`splice_preserves_outside`) -/
+theorem rewrite_makeEditFixed_eq_splice_clamped (old : Bytes) (edits : List REdit) (offset : Nat) :
+    makeEditFixed old edits offset
+      = .ok (spliceAll old
+          ((processDiffs (edits.map (REdit.relClamp offset old.length))).map Diff.toEdit)) := by
+  unfold makeEditFixed
+  rw [makeEditFixedGo_eq_segments old offset edits 0 (Nat.zero_le _)]
+  have hw : ∀ d ∈ edits.map (REdit.relClamp offset old.length), d.start ≤ d.stop := by
+    intro d hd
+    obtain ⟨e, _, rfl⟩ := List.mem_map.1 hd
+    exact REdit.relClamp_wf offset old.length e
+  have ho := ((processDiffs_sorted (edits.map (REdit.relClamp offset old.length))).2.2 hw).1
+  have hr : InRange old.length
+      ((processDiffs (edits.map (REdit.relClamp offset old.length))).map Diff.toEdit) := by
+    intro e he
+    obtain ⟨d, hd, rfl⟩ := List.mem_map.1 he
+    obtain ⟨x, _, rfl⟩ := List.mem_map.1 ((processDiffsGo_sublist 0 _).subset hd)
+    exact REdit.relClamp_stop_le offset old.length x
+  rw [spliceAll_eq_segments old _ ⟨ho, hr⟩]
+  rfl
+
+/-- **the repair changes nothing where the released code worked**: whenever the pinned `make_edit`
+returns (no panic), the repaired one returns the same bytes -/
+theorem makeEditFixed_eq_of_pinned_ok (old : Bytes) (edits : List REdit) (offset : Nat) (r : Bytes)
+    (h : makeEdit old edits offset = .ok r) : makeEditFixed old edits offset = .ok r :=
+  makeEditFixedGo_eq_of_pinned_ok old offset edits 0 r h
+
+/-- the repaired `make_edit` under the hypotheses of `rewrite_makeEdit_eq_splice` (edits at or after
+the start of the capture, kept edits ending inside it): the same specification splice -/
+theorem rewrite_makeEditFixed_eq_splice (old : Bytes) (edits : List REdit) (offset : Nat)
+    (hpos : ∀ e ∈ edits, offset ≤ e.position)
+    (hin : ∀ d ∈ processDiffs (edits.map (REdit.rel offset)), d.stop ≤ old.length) :
+    makeEditFixed old edits offset
+      = .ok (spliceAll old ((processDiffs (edits.map (REdit.rel offset))).map Diff.toEdit)) :=
+  makeEditFixed_eq_of_pinned_ok old edits offset _ (rewrite_makeEdit_eq_splice old edits offset hpos hin)
+
+/-- **the repaired `joinBy` branch, without hypotheses**: the kept replacements joined by the
+separator, the greedy filter running on the saturating relative positions (`REdit.rel` subtracts
+in `Nat`); in particular it cannot panic -/
+theorem rewrite_joinByFixed_eq (edits : List REdit) (start : Nat) (joiner : Bytes) :
+    joinByFixed edits start joiner
+      = .ok (joinWith joiner ((processDiffs (edits.map (REdit.rel start))).map (·.rep))) := by
+  cases edits with
+  | nil => rfl
+  | cons e es =>
+    simp only [joinByFixed, bind, Except.bind, pure, Except.pure]
+    rw [joinByFixedGo_eq start joiner es _]
+    simp only [processDiffs, List.map_cons, processDiffsGo, Nat.not_lt_zero, if_false]
+    rw [joinWith_cons]
+    simp [REdit.rel, List.flatMap_map]
+
+theorem rewrite_joinByFixed_total (edits : List REdit) (start : Nat) (joiner : Bytes) :
+    ∃ r, joinByFixed edits start joiner = .ok r :=
+  ⟨_, rewrite_joinByFixed_eq edits start joiner⟩
+
+/-- whenever the pinned `joinBy` branch returns, the repaired one returns the same bytes -/
+theorem joinByFixed_eq_of_pinned_ok (edits : List REdit) (start : Nat) (joiner r : Bytes)
+    (h : joinBy edits start joiner = .ok r) : joinByFixed edits start joiner = .ok r := by
+  cases edits with
+  | nil => exact h
+  | cons e es =>
+    simp only [joinBy, subUsize] at h
+    by_cases hp : start ≤ e.position
+    · simp only [hp, if_true, bind, Except.bind] at h
+      cases hrest : joinByGo start joiner (e.position - start + e.deleted) es with
+      | error err => rw [hrest] at h; cases h
+      | ok rest =>
+        rw [hrest] at h
+        simp only [joinByFixed, bind, Except.bind, joinByFixedGo_eq_of_pinned_ok start joiner es _ rest hrest]
+        exact h
+    · simp only [hp, if_false, bind, Except.bind] at h
+      cases h
+
+/-- **the repaired `Rewrite::compute` (after the edits were collected) cannot panic** -/
+theorem rewrite_computeFixed_total (old : Bytes) (edits : List REdit) (start : Nat) (joiner : Option Bytes) :
+    ∃ r, rewriteComputeFixed old edits start joiner = .ok r := by
+  cases joiner with
+  | none => exact rewrite_makeEditFixed_total old edits start
+  | some j => exact rewrite_joinByFixed_total edits start j
+
+/-- and returns what the released code returned wherever that one did not panic -/
+theorem rewriteComputeFixed_eq_of_pinned_ok (old : Bytes) (edits : List REdit) (start : Nat)
+    (joiner : Option Bytes) (r : Bytes) (h : rewriteCompute old edits start joiner = .ok r) :
+    rewriteComputeFixed old edits start joiner = .ok r := by
+  cases joiner with
+  | none => exact makeEditFixed_eq_of_pinned_ok old edits start r h
+  | some j => exact joinByFixed_eq_of_pinned_ok edits start j r h
+
 /-! ## Where an edit's range comes from -/
 
 /-- **default replaced range** (`replace_by`, `make_edit` with the default `get_replaced_range`, and
@@ -414,6 +517,38 @@ example : makeEdit [0x61, 0x62, 0x63, 0x64] [⟨10, 2, [0x58]⟩, ⟨11, 2, [0x5
 example : joinBy [⟨10, 2, [0x58]⟩, ⟨11, 2, [0x59]⟩, ⟨13, 1, [0x5A]⟩] 10 [0x2C]
     = .ok [0x58, 0x2C, 0x5A] := by decide
 
+-- the same on the repaired functions
+example : makeEditFixed [0x61, 0x62, 0x63, 0x64] [⟨10, 2, [0x58]⟩, ⟨11, 2, [0x59]⟩, ⟨13, 1, [0x5A]⟩] 10
+    = .ok [0x58, 0x63, 0x5A] := by decide
+example : joinByFixed [⟨10, 2, [0x58]⟩, ⟨11, 2, [0x59]⟩, ⟨13, 1, [0x5A]⟩] 10 [0x2C]
+    = .ok [0x58, 0x2C, 0x5A] := by decide
+
+-- pinned vs repaired, an edit reaching past the end of the slice: old = "1" captured at 4, the edit
+-- deletes [4,6) (`expandEnd` swallowed the comma after the capture): the released code slices
+-- `old[2..]` of a 1-byte text and panics, the repaired code replaces the part inside the slice
+example : makeEdit [0x31] [⟨4, 2, [0x58]⟩] 4 = .error .byteSlice := by decide
+example : makeEditFixed [0x31] [⟨4, 2, [0x58]⟩] 4 = .ok [0x58] := by decide
+-- an edit starting before the slice: old = "ab" captured at 4, the edit deletes [2,5): the released
+-- code panics on `2 - 4`, the repaired code replaces `old[0..1]`
+example : makeEdit [0x61, 0x62] [⟨2, 3, [0x58]⟩] 4 = .error .subOverflow := by decide
+example : makeEditFixed [0x61, 0x62] [⟨2, 3, [0x58]⟩] 4 = .ok [0x58, 0x62] := by decide
+-- an edit entirely before the slice is an insertion at its start, one entirely beyond it an
+-- insertion at its end; a later edit inside the slice is still applied
+example : makeEditFixed [0x61, 0x62] [⟨0, 2, [0x58]⟩, ⟨5, 1, [0x59]⟩, ⟨9, 3, [0x5A]⟩] 4
+    = .ok [0x58, 0x61, 0x59, 0x5A] := by decide
+example : makeEdit [0x61, 0x62] [⟨4, 1, [0x58]⟩, ⟨9, 3, [0x5A]⟩] 4 = .error .byteSlice := by decide
+-- `joinBy`: the first edit starts before the capture
+example : joinBy [⟨2, 3, [0x58]⟩, ⟨7, 1, [0x59]⟩] 4 [0x2C] = .error .subOverflow := by decide
+example : joinByFixed [⟨2, 3, [0x58]⟩, ⟨7, 1, [0x59]⟩] 4 [0x2C] = .ok [0x58, 0x2C, 0x59] := by decide
+-- (the two branches do not filter alike for an edit that starts before the capture: `joinBy` takes
+-- `saturating(position - start) + deleted` as its end, `make_edit` the real `(position + deleted) - start`)
+example : joinByFixed [⟨2, 3, [0x58]⟩, ⟨5, 1, [0x59]⟩] 4 [0x2C] = .ok [0x58] ∧
+    makeEditFixed [0x61, 0x62] [⟨2, 3, [0x58]⟩, ⟨5, 1, [0x59]⟩] 4 = .ok [0x58, 0x59] := by decide
+example : rewriteCompute [0x31] [⟨4, 2, [0x58]⟩] 4 none = .error .byteSlice := by decide
+example : rewriteComputeFixed [0x31] [⟨4, 2, [0x58]⟩] 4 none = .ok [0x58] := by decide
+-- the clamped view of that edit is the range [0,1) of the slice
+example : REdit.relClamp 4 1 ⟨4, 2, [0x58]⟩ = ⟨0, 1, [0x58]⟩ ∧ REdit.relClamp 4 2 ⟨2, 3, [0x58]⟩ = ⟨0, 1, [0x58]⟩ := by decide
+
 -- expansion: `a, b` with the node `a` = [0,1), next siblings `,` [1,2) and `b` [3,4); expandEnd regex `,`
 example : fixerReplacedRange none (some .neighbor) ⟨0, 1⟩ none [] [⟨⟨1, 2⟩, true, false⟩, ⟨⟨3, 4⟩, false, false⟩]
     = ⟨0, 2⟩ := by decide
@@ -455,6 +590,11 @@ example : spliceAll (encAll encDemo [false, true, false]) (([⟨1, 2, [false, fa
 example : (∀ e ∈ ([⟨10, 2, [0x58]⟩, ⟨11, 2, [0x59]⟩, ⟨13, 1, [0x5A]⟩] : List REdit), 10 ≤ e.position) ∧
     (∀ d ∈ processDiffs (([⟨10, 2, [0x58]⟩, ⟨11, 2, [0x59]⟩, ⟨13, 1, [0x5A]⟩] : List REdit).map (REdit.rel 10)),
       d.stop ≤ ([0x61, 0x62, 0x63, 0x64] : Bytes).length) := by decide
+
+-- makeEditFixed_eq_of_pinned_ok / rewrite_makeEditFixed_eq_splice: the same instance, the pinned run returns
+example : makeEdit [0x61, 0x62, 0x63, 0x64] [⟨10, 2, [0x58]⟩, ⟨11, 2, [0x59]⟩, ⟨13, 1, [0x5A]⟩] 10
+    = .ok [0x58, 0x63, 0x5A] ∧
+    joinBy [⟨10, 2, [0x58]⟩, ⟨11, 2, [0x59]⟩, ⟨13, 1, [0x5A]⟩] 10 [0x2C] = .ok [0x58, 0x2C, 0x5A] := by decide
 
 -- edit_in_node: a match of length 3 inside the node [2,7)
 example : (∀ len, some 3 = some len → len ≤ 7 - 2) ∧ (2 : Nat) ≤ 7 := by
